@@ -16,6 +16,7 @@
   No Mathlib, no Lemmas: this file links into the compiled driver gidriver_c09.
 -/
 import GIVerif.Gen.TypelibLayout
+import GIVerif.Gen.InfoSwitch
 
 namespace GIVerif.InfoAccess
 open GIVerif
@@ -362,19 +363,23 @@ def typeInfoOffset (off w : Nat) : Nat := if typeIsSimple w then off else w
 
 /-! ## 1d. g_base_info_is_deprecated (gibaseinfo.c) -/
 
-/-- the switch of g_base_info_is_deprecated: which bit (if any) is read for an info of this GIInfoType.
-    GI_INFO_TYPE_UNION has no case in the C switch and falls to `default: return FALSE`. -/
+/-- the case group of the `switch (rinfo->type)` of g_base_info_is_deprecated that an info of this
+    GIInfoType reaches: the group holding a label whose enumerator has that value, else the group of
+    the `default` label.  The groups come from `Gen.deprecatedSwitch`, regenerated from gibaseinfo.c. -/
+def deprecatedGroup (kind : Nat) : Option (List String × String × String) :=
+  let isKind (l : String) : Bool :=
+    Gen.typelibEnums.any (fun x => x.1 == "GIInfoType" && x.2.1 == l && x.2.2 == kind)
+  match Gen.deprecatedSwitch.find? (fun g => g.1.any isKind) with
+  | some g => some g
+  | none => Gen.deprecatedSwitch.find? (fun g => g.1.contains "default")
+
+/-- g_base_info_is_deprecated: which bit (if any) is read for an info of this GIInfoType —
+    `((Blob *) &typelib->data[offset])->member` of the case group reached; a group that only leaves
+    the switch (and a type with no group at all) ends in `return FALSE`. -/
 def deprecatedField (kind : Nat) : Option (Nat × Nat) :=
-  if kind == enumVal "GIInfoType" "GI_INFO_TYPE_FUNCTION" || kind == enumVal "GIInfoType" "GI_INFO_TYPE_CALLBACK"
-      || kind == enumVal "GIInfoType" "GI_INFO_TYPE_STRUCT" || kind == enumVal "GIInfoType" "GI_INFO_TYPE_BOXED"
-      || kind == enumVal "GIInfoType" "GI_INFO_TYPE_ENUM" || kind == enumVal "GIInfoType" "GI_INFO_TYPE_FLAGS"
-      || kind == enumVal "GIInfoType" "GI_INFO_TYPE_OBJECT" || kind == enumVal "GIInfoType" "GI_INFO_TYPE_INTERFACE"
-      || kind == enumVal "GIInfoType" "GI_INFO_TYPE_CONSTANT" || kind == enumVal "GIInfoType" "GI_INFO_TYPE_INVALID_0" then
-    some (fld "CommonBlob" "deprecated")
-  else if kind == enumVal "GIInfoType" "GI_INFO_TYPE_VALUE" then some (fld "ValueBlob" "deprecated")
-  else if kind == enumVal "GIInfoType" "GI_INFO_TYPE_SIGNAL" then some (fld "SignalBlob" "deprecated")
-  else if kind == enumVal "GIInfoType" "GI_INFO_TYPE_PROPERTY" then some (fld "PropertyBlob" "deprecated")
-  else none
+  match deprecatedGroup kind with
+  | some g => if g.2.1 == "" then none else some (fld g.2.1 g.2.2)
+  | none => none
 
 /-- where the format stores a deprecation bit for an info of this kind (none: the blob has no such bit) -/
 def storedDeprecatedField (kind : Nat) : Option (Nat × Nat) :=
